@@ -6,6 +6,7 @@ Abstraction: `Ring.content r` (oldest first); spec = bounded FIFO `BQ` on `List 
 (`Golib/Model/C10Spec.lean`).
 -/
 import Golib.Proof.C10Refine
+import Golib.Proof.C10SyncRefine
 
 namespace Golib.C10
 
@@ -99,5 +100,70 @@ example :
     ((⟨[3, 4, 5], 4⟩ : BQ).run [.pushx 6, .pushx 7, .pop, .recap 4, .isFull]).2
       = ["ok", "ok", "3 true", "true", "true"] := by
   constructor <;> decide
+
+/-! ## SyncRing used from one goroutine -/
+
+/-- `NewSync(n).Cap()` for every admissible request `1 ≤ n ≤ 2^31`: the smallest power of
+two that is at least `max 2 n` (a power `2^e` with `1 ≤ e ≤ 31`; `uint32` truncation,
+`1 → 2`, the `c&(c-1)` test and the bit-length loop all accounted for).  Requests above
+2^31 are rejected by the (repaired, F6) panic branch: `c10_cap_overflow_rejected`. -/
+theorem c10_cap_rounding (n : Int) (h1 : 1 ≤ n) (h2 : n ≤ 2 ^ 31) :
+    ∃ r c e, SyncRing.init? n = some r ∧ r.cap = c ∧ c = 2 ^ e ∧ 1 ≤ e ∧ e ≤ 31 ∧
+      max 2 n.toNat ≤ c ∧ ∀ e', max 2 n.toNat ≤ 2 ^ e' → c ≤ 2 ^ e' := by
+  obtain ⟨c, e, g, ⟨_, hge, hleast⟩, hinit⟩ := init_mk n h1 (by omega)
+  exact ⟨_, c, e, hinit, rfl, g.pow, g.e1, g.e31, hge, hleast⟩
+
+/-- `NewSync(n)` panics for `n ≤ 0` and for `n > 2^31` (no `uint32` capacity can be the
+least power of two ≥ n; before the repair of F6 such a ring had `Cap() = 0`). -/
+theorem c10_cap_overflow_rejected (n : Int) (h : n ≤ 0 ∨ 2 ^ 31 < n) : SyncRing.init? n = none := by
+  have : n ≤ 0 ∨ n > 2147483648 := by omega
+  simp only [SyncRing.init?, syncCap, this, if_true]
+
+/-- Non-vacuity: a request that is rounded (5 → 8) and the largest admissible one. -/
+example : (SyncRing.init? 5).map (·.cap) = some 8 ∧ syncCap (2 ^ 31) = some (2 ^ 31) ∧
+    syncCap (2 ^ 31 - 1) = some (2 ^ 31) := by
+  refine ⟨by decide +kernel, by decide +kernel, by decide +kernel⟩
+
+/-- The single-goroutine SyncRing equals the bounded FIFO for operation sequences of ANY
+length and from ANY absolute counter value: `H` is the ghost, unbounded number of
+elements ever popped; the real `uint32` counters are `H mod 2^32` and `(H+|q|) mod 2^32`
+and the slot sequence numbers are as in `mkSync` (slot `i` holds `(p+1) mod 2^32` if its
+window position `p` is below the tail, else `p mod 2^32`).  So the guarantees hold after
+more than 2^32 pushes, when the 32-bit position counters have wrapped (any number of
+times).  No operation panics.  Needs `cap = 2^e`, `1 ≤ e ≤ 31` (which `Init` establishes:
+`c10_cap_rounding`; with `cap = 1` the full test `pos ≠ seq` would fail). -/
+theorem c10_sync_refines (c e : Nat) (hc : c = 2 ^ e) (he1 : 1 ≤ e) (he31 : e ≤ 31)
+    (H : Nat) (q : List Int) (hq : q.length ≤ c) (ops : List SOp) :
+    ∃ H' q', (mkSync c H q).run ops =
+        some (mkSync c H' q', ((⟨q, c⟩ : BQ).run (ops.map SOp.toOp)).2) ∧
+      ((⟨q, c⟩ : BQ).run (ops.map SOp.toOp)).1 = ⟨q', c⟩ ∧ q'.length ≤ c :=
+  sync_run_refines ⟨hc, he1, he31⟩ ops H q hq
+
+/-- From `NewSync(n)`: every history of a fresh SyncRing is a history of the bounded FIFO
+whose capacity is the least power of two ≥ max 2 n. -/
+theorem c10_sync_refines_new (n : Int) (h1 : 1 ≤ n) (h2 : n ≤ 2 ^ 31) (ops : List SOp) :
+    ∃ r c r', SyncRing.init? n = some r ∧ r.cap = c ∧
+      r.run ops = some (r', ((⟨[], c⟩ : BQ).run (ops.map SOp.toOp)).2) := by
+  obtain ⟨c, e, g, _, hinit⟩ := init_mk n h1 (by omega)
+  obtain ⟨H', q', hrun, _, _⟩ := sync_run_refines g ops 0 [] (by simp)
+  exact ⟨_, c, _, hinit, rfl, hrun⟩
+
+/-- `warp k` (what the harness does to a fresh ring through reflect+unsafe) is exactly
+the state `k` honest push/pop pairs lead to, for every `k` (beyond 2^32 included) and
+whatever values are pushed; each of those pairs succeeds and returns what was pushed. -/
+theorem c10_warp_eq_pairs (n : Int) (h1 : 1 ≤ n) (h2 : n ≤ 2 ^ 31) (vs : Nat → Int) (k : Nat) :
+    ∃ r, SyncRing.init? n = some r ∧ r.isFresh = true ∧ r.pairs vs k = some (r.warp k) := by
+  obtain ⟨c, e, g, _, hinit⟩ := init_mk n h1 (by omega)
+  have hc : 0 < c := by have := g.bounds; omega
+  exact ⟨_, hinit, fresh_mk c, by rw [pairs_mk g vs k, warp_mk c k hc]⟩
+
+/-- Non-vacuity: a ring of capacity 4 whose counters stand at 2^32 − 2 (warped), filled
+across the wrap and drained: model and spec print the same. -/
+example :
+    (((mkSync 4 0 []).warp (2 ^ 32 - 2)).run
+        [.push 1, .push 2, .push 3, .push 4, .push 5, .len, .pop, .pop, .isFull]).map (·.2)
+      = some ["true", "true", "true", "true", "false", "4", "1 true", "2 true", "false"] ∧
+    (mkSync 4 0 []).warp (2 ^ 32 - 2) = mkSync 4 (2 ^ 32 - 2) [] := by
+  constructor <;> decide +kernel
 
 end Golib.C10
